@@ -44,6 +44,10 @@ def run(ctx) -> None:
     ctx.rule("R7", "prerequisite: the announced version passed the gate (C01/R1-R3) and reads back under its own pattern (C02/R2-R5)")
     run_prerequisite(ctx, "C01", ("R1", "R2", "R3"), "R7")
     run_prerequisite(ctx, "C02", ("R2", "R3", "R4", "R5"), "R7")
+    # "tags in agreement": a tag, once set, stays where the update that made it put it - the mutating templates run the verb their name stands for, without overwriting flags
+    run_prerequisite(ctx, "C10", ("R8",), "R2", only=lambda key: "VCS_SUBCOMMANDS_BY_NAME" in key)
+    # a failed update in the middle of a sequence leaves files and config in agreement: nothing is written before every file was validated
+    run_prerequisite(ctx, "C06", ("R1",), "R5")
 
     upd = prog.function("cli._update")
     vc = prog.function("vcs.commit")
